@@ -7,12 +7,12 @@ from harness import common
 from harness import pysym
 from harness import stubs
 from harness import symbytes
-from harness.common import T, TB, bvar, inputs_of
+from harness.common import T, TB, bvar, inputs_of, ivar
 from harness.pysym import SBits
 from harness.runner import Job
 
 OUTSIDE = [
-    'ReverseBits and Bits (C-level bytes.translate / array)',
+    'ReverseBits (C-level bytes.translate)',
     'FrequencyCount / SubSequences beyond the stated lengths: the counters '
     'are indexed by the symbolic window, which concretises (one path per '
     'string); the fast path (50*2^m < length) only with <= 8 symbolic bits '
@@ -521,9 +521,153 @@ def replay_rank(which, matrix):
   return got != want or got2 != want
 
 
+# ---------------------------------------------------------------------------
+# Bits: +-1 expansion.  The C-level pieces (format, bytes.translate, array)
+# are replaced by models over a symbolic bit string; the padding arithmetic
+# and the order of the elements are the real code's.
+
+
+class _BinStr:
+  """format(seq, 'b') / bytes(..., 'ascii'): the binary digits of seq, most
+  significant first, no leading zeros ('0' for 0)."""
+
+  def __init__(self, digits):
+    self.digits = list(digits)  # z3 Bool or python bool, MSB first
+
+  def __len__(self):
+    return len(self.digits)
+
+  def translate(self, table):
+    lo, hi = table[ord('0')], table[ord('1')]
+    return [(hi, lo, d) for d in self.digits]
+
+
+def _sym_format(x, spec=''):
+  if spec != 'b' or not pysym.is_sym(x):
+    return format(x, spec)
+  L = x.bit_length()
+  L = L.value() if isinstance(L, pysym.SBitLen) else int(L)
+  t = T(x)
+  if z3.is_bv(t):
+    digit = lambda i: z3.Extract(i, i, t) == 1
+  else:
+    digit = lambda i: (t / (1 << i)) % 2 == 1
+  if L == 0:
+    return _BinStr([False])
+  return _BinStr([digit(i) for i in range(L - 1, -1, -1)])
+
+
+class _BytesModel:
+
+  def __call__(self, x=b'', enc=None):
+    if isinstance(x, _BinStr):
+      return x
+    return bytes(x, enc) if enc else bytes(x)
+
+  maketrans = staticmethod(bytes.maketrans)
+
+
+class _ArrayModel:
+  """array.array('b', ...): list of signed bytes."""
+
+  class array(list):
+
+    def __init__(self, code, items=()):
+      super().__init__(items)
+      self.code = code
+
+    def __mul__(self, k):
+      return _ArrayModel.array(self.code, list(self) * max(int(k), 0))
+
+    def frombytes(self, data):
+      for item in data:
+        if isinstance(item, tuple):
+          hi, lo, d = item
+          sg = lambda v: v - 256 if v >= 128 else v
+          if isinstance(d, bool):
+            self.append(sg(hi) if d else sg(lo))
+          else:
+            self.append(pysym.SInt(z3.If(d, z3.IntVal(sg(hi)),
+                                         z3.IntVal(sg(lo)))))
+        else:
+          self.append(item - 256 if item >= 128 else item)
+
+
+def bits_expansion(rec, seed, maxlen):
+  util = _util()
+  rec.functions('paranoid_crypto.lib.randomness_tests.util:Bits')
+  rec.bounds('every bit string of every length 0..%d (symbolic integer); '
+             'format/bytes.translate/array replaced by models' % maxlen)
+  cexs = []
+  done = 0
+  with stubs.patched(util, format=_sym_format, bytes=_BytesModel(),
+                     array=_ArrayModel):
+    for length in range(0, maxlen + 1):
+
+      def run(e, length=length):
+        s = ivar(e, 's', lo=0, hi=2**length)
+        e.notes['s'] = s
+        return util.Bits(s, length)
+
+      for p in pysym.explore(run, max_paths=200):
+        e = p.eng
+        rec.path(p.kind)
+        if p.kind == 'abort':
+          rec.inconclusive('path aborted: %s' % p.value)
+          continue
+        r, mdl = e.feasible()
+        if r == 'unsat':
+          continue
+        if p.kind != 'return':
+          if r == 'sat':
+            cexs.append((length, inputs_of(e, mdl).get('s', 0)))
+          continue
+        out = list(p.value)
+        st = e.notes['s'].t
+        if len(out) != length:
+          if r == 'sat':
+            cexs.append((length, inputs_of(e, mdl).get('s', 0)))
+          continue
+        goal = z3.And([T(out[i]) == z3.If((st / (1 << i)) % 2 == 1, 1, -1)
+                       for i in range(length)] + [z3.BoolVal(True)])
+        r2, m2, _ = e.prove(goal)
+        if r2 == 'proved':
+          rec.obligation('proved')
+        elif r2 == 'unknown':
+          rec.obligation('unknown', 'Bits')
+        else:
+          cexs.append((length, inputs_of(e, m2).get('s', 0)))
+        done += 1
+  rec.sample(dict(fn='Bits', maxlen=maxlen, paths=done))
+  rec.reach(1, 1 if done else 0)
+  seen = set()
+  for length, sv in cexs:
+    if (length == 0) in seen:
+      continue
+    seen.add(length == 0)
+    bad = replay_bits(sv, length)
+    rec.replayed()
+    rec.violation('util.Bits', 'expansion' if length else 'empty_string',
+                  'Bits(%d, %d) is not the +-1 expansion of the %d-bit string'
+                  % (sv, length, length), dict(s=sv, length=length),
+                  dict(module='harness.props.c15', function='replay_bits',
+                       args=dict(s=sv, length=length)), bad,
+                  tags=['bits_length0'] if length == 0 else [])
+
+
+def replay_bits(s, length):
+  util = _util()
+  s, length = int(s), int(length)
+  got = list(util.Bits(s, length))
+  want = [1 if (s >> i) & 1 else -1 for i in range(length)]
+  print('Bits(%d, %d) = %r, definition %r' % (s, length, got, want))
+  return got != want
+
+
 def jobs(tier, seed):
   thorough = tier == 'thorough'
-  out = []
+  out = [Job('bits_expansion', bits_expansion,
+             dict(maxlen=12 if not thorough else 24), timeout=1200, cost=8)]
   for width in ([8, 16, 24] if not thorough else [8, 16, 24, 32, 48, 64]):
     for fn in ('Runs', 'LongestRunOfOnes', 'OverlappingRunsOfOnes',
                'BitCount'):
